@@ -70,7 +70,10 @@ class TaggedDevice:
             self.fault_in -= 1
             if self.fault_in <= 0:
                 self.fault_in = None
-                self.stale = (self.opens(), ans)
+                if not self.use_shared:
+                    # (over the real TCP transport the in-process signer closes the connection instead:
+                    # nothing stays buffered, the answer is lost with the link)
+                    self.stale = (self.opens(), ans)
                 return ("R",)
         return ans
 
@@ -338,16 +341,22 @@ def run(ctx):
     for r in range(rounds):
         n = rng.randint(2, 16)
         fatal = (r % 6 == 3)
-        dev, reqs, replies = one_round(rng, n, 0.002 if r % 2 else 0.0005, r, fault=(r % 3 == 2),
-                                       v1=(r % 5 == 4 and r % 3 != 2), fatal=fatal,
-                                       kind=("tcp-real" if r == 1 or (ctx["tier"] == "thorough" and r % 40 == 1)
-                                             else "tcp" if r % 4 == 3 else "ledger"))
+        kind = ("tcp-real" if r == 1 or (ctx["tier"] == "thorough" and r % 40 == 1)
+                else "tcp" if r % 4 == 3 else "ledger")
+        # link faults are those of the property's vocabulary (the HID transport's write / read error, which the
+        # fake transports raise); over the genuine TCP transport a connection closed by the signer surfaces as
+        # struct.error, which _send_command classifies as a generic dongle error and getPubKey answers by
+        # stopping the manager - behaviour outside C11's fault kinds and C12's schedules (DESIGN.md, C12), so
+        # the rounds over the genuine TCP transport inject the stall (time-out) only
+        fault_round = (r % 3 == 2 and kind != "tcp-real")
+        dev, reqs, replies = one_round(rng, n, 0.002 if r % 2 else 0.0005, r, fault=fault_round,
+                                       v1=(r % 5 == 4 and r % 3 != 2), fatal=fatal, kind=kind)
         res["evaluations"] += 1
         res["distinct"] += 1
         res["distribution"]["clients"][n] = res["distribution"]["clients"].get(n, 0) + 1
         log = [e for e in dev.log if e[0] is not None]
         res["distribution"]["apdus"] += len(log)
-        res["distribution"]["fault_rounds"] = res["distribution"].get("fault_rounds", 0) + (1 if r % 3 == 2 else 0)
+        res["distribution"]["fault_rounds"] = res["distribution"].get("fault_rounds", 0) + (1 if fault_round else 0)
         if not contiguous(dev.log):
             res["violations"].append({"key": "C12:interleaved", "what": "APDUs of different requests "
                                       "interleave on the device", "tags": [str(t) for t, _ in log][:60]})
